@@ -25,7 +25,7 @@ ASSUMPTIONS = ["partial output follows the incremental contract: the aborted scr
                "SIGKILL = process crash (page cache survives); the stale lock file is removed before the next invocation as the error message instructs"]
 
 
-QUICK_EDITS = {"dev": ["class-build-script", "lib-source-mod"],
+QUICK_EDITS = {"dev": ["class-build-script", "lib-source-mod", "gen-checkout-script"],
                "build": ["mp-parent-build-script", "base-source-mod"]}
 
 
@@ -35,13 +35,15 @@ def plan(tier, seed):
         # one case per (mode, edit class): script change, source change, variable change, tool change
         for mode in ("dev", "build"):
             for i, label in enumerate(QUICK_EDITS[mode]):
-                # the abort points of one project state are spread over 4 workers (each rebuilds the state itself: the subject must
+                # the abort points of one project state are spread over 3 workers (each rebuilds the state itself: the subject must
                 # live at one fixed path per worker)
-                for k in range(4):
-                    cases.append({"seed": common.subseed(seed, "c05", mode, i), "mode": mode, "edit": label, "kill_samples": 2, "step_samples": 2, "slice": [k, 4]})
+                for k in range(3):
+                    cases.append({"seed": common.subseed(seed, "c05", mode, i), "mode": mode, "edit": label, "kill_samples": 2, "step_samples": 2, "slice": [k, 3]})
+        cases += [{"seed": common.subseed(seed, "c05x", mode), "mode": mode, "extract": True, "_first": True} for mode in ("dev", "build")]
         return cases
     for i in range(80):
         cases.append({"seed": common.subseed(seed, "c05", i), "mode": ["dev", "build"][i % 2], "kill_samples": None, "step_samples": None})
+    cases += [{"seed": common.subseed(seed, "c05x", i), "mode": ["dev", "build"][i % 2], "extract": True, "_first": i < 2} for i in range(8)]
     return cases
 
 
@@ -50,14 +52,108 @@ def snapshot_copy(src, dst):
     shutil.copytree(src, dst, symlinks=True)
 
 
+def run_extract(case):
+    """A url SCM whose archive extraction is cut short: the extractor fails, or Bob is killed, after only a part of the members
+    was unpacked (a `tar` wrapper first in PATH does that when the harness asks).  The next normal invocation must succeed and give
+    the clean build's result.  Also with a previously complete workspace whose recipe moved to another archive."""
+    import hashlib, io, tarfile
+    rnd = random.Random(case["seed"])
+    counters = dict.fromkeys(REQUIRED_COUNTERS, 0)
+    counters["extractions_cut_short"] = 0
+    viol, sigs = [], set()
+    mode = case["mode"]
+    with common.scratch("c05x") as base:
+        ctl = os.path.join(base, "ctl"); os.makedirs(ctl)
+        shim = os.path.join(base, "shim"); os.makedirs(shim)
+        real_tar = shutil.which("tar")
+        open(os.path.join(shim, "tar"), "w").write(
+            "#!/bin/sh\n"
+            "if [ -e \"$VERIF_CTL/tar.kill\" ]; then %s \"$@\" --exclude='*late*' ; kill -9 \"$(cat \"$VERIF_CTL/bobpid\")\" ; sleep 30 ; exit 1 ; fi\n"
+            "if [ -e \"$VERIF_CTL/tar.fail\" ]; then %s \"$@\" --exclude='*late*' ; echo 'tar: unexpected end of archive' >&2 ; exit 2 ; fi\n"
+            "exec %s \"$@\"\n" % (real_tar, real_tar, real_tar))
+        os.chmod(os.path.join(shim, "tar"), 0o755)
+        env = {"VERIF_CTL": ctl, "PATH": shim + ":" + common.clean_env()["PATH"]}
+        xargs = ["-e", "VERIF_CTL"]
+        def mkrel(i):
+            d = os.path.join(base, "dl", "rel-%d" % i); os.makedirs(d)
+            buf = io.BytesIO()
+            with tarfile.open(fileobj=buf, mode="w:gz") as t:
+                for n_ in ["pkg/early-a.txt", "pkg/early-b.txt", "pkg/late-c.txt", "pkg/sub/late-d.txt"]:
+                    c = ("%s release %d %s\n" % (n_, i, projgen.new_tok(rnd))).encode()
+                    ti = tarfile.TarInfo(n_); ti.size = len(c); ti.mode = 0o644; ti.mtime = 1500000000
+                    t.addfile(ti, io.BytesIO(c))
+            f = os.path.join(d, "src.tgz"); open(f, "wb").write(buf.getvalue())
+            return f
+        rels = [mkrel(1), mkrel(2)]
+        def write(proj, rel):
+            os.makedirs(os.path.join(proj, "recipes"), exist_ok=True)
+            open(os.path.join(proj, "config.yaml"), "w").write('bobMinimumVersion: "1.0"\n')
+            open(os.path.join(proj, "recipes", "root.yaml"), "w").write(
+                "root: True\ncheckoutSCM:\n  scm: url\n  url: %s\n  digestSHA256: %s\n  dir: src\n"
+                "buildScript: |\n  cp -a \"$1/src/pkg\" .\npackageScript: |\n  cp -a \"$1/pkg\" .\n" % (rel, hashlib.sha256(open(rel, "rb").read()).hexdigest()))
+        flag = "dev" if mode == "dev" else "build"
+        def bob(proj):
+            return common.bob([flag, "root"] + xargs, cwd=proj, env=env, timeout=300)
+        def result_dir(proj, r):
+            import re as _re
+            m_ = _re.search(r"Build result is in (\S+)", r.stdout or "")
+            return os.path.join(proj, m_.group(1)) if m_ else None
+        refs = []
+        for i, rel in enumerate(rels):
+            C = os.path.join(base, "C%d" % i, "p"); write(C, rel)
+            rc = bob(C)
+            if rc.returncode != 0 or not result_dir(C, rc):
+                return result("inconclusive", counters=counters, note="clean build failed: " + rc.tail(300))
+            refs.append((treecanon.canon(result_dir(C, rc)), result_dir(C, rc)))
+        n = 0
+        for start in ("fresh", "complete-workspace-of-other-release"):
+            for kind in ("kill", "fail"):
+                n += 1
+                W = os.path.join(base, "W%d" % n, "p")
+                target = 0
+                if start != "fresh":
+                    write(W, rels[0]); r0 = bob(W)
+                    if r0.returncode != 0:
+                        return result("inconclusive", counters=counters, note="first build failed: " + r0.tail(300))
+                    target = 1
+                write(W, rels[target])
+                open(os.path.join(ctl, "tar." + kind), "w").close()
+                r1 = bob(W)
+                counters["aborted_invocations"] += 1; counters["extractions_cut_short"] += 1
+                counters["kills_during_script" if kind == "kill" else "script_failures"] += 1
+                os.unlink(os.path.join(ctl, "tar." + kind))
+                ctx = {"mode": mode, "abort": "extractor-" + kind, "start": start, "point": "url-scm-extract"}
+                if r1.returncode == 0:
+                    viol.append(violation("build-succeeded-although-extraction-was-cut-short", ctx)); continue
+                lock = os.path.join(W, ".bob-state.lock")
+                if os.path.exists(lock):
+                    os.unlink(lock)
+                r2 = bob(W)
+                if r2.returncode != 0:
+                    viol.append(violation("invocation-after-abort-failed", dict(ctx, output=r2.tail(500)))); continue
+                counters["recoveries_compared"] += 1
+                rd = result_dir(W, r2)
+                if rd is None or treecanon.canon(rd) != refs[target][0]:
+                    viol.append(violation("result-after-abort-differs-from-clean-build", dict(ctx, differences=treecanon.diff(rd, refs[target][1], 6) if rd else "no result")))
+                sigs.add("%s|url-extract|%s|%s" % (mode, kind, start))
+    return result("held", sigs=sorted(sigs), counters=counters, violations=viol[:3], sample={"mode": mode, "kind": "url-extract"})
+
+
 def run_case(case):
+    if case.get("extract"):
+        return run_extract(case)
     rnd = random.Random(case["seed"])
     counters = dict.fromkeys(REQUIRED_COUNTERS, 0)
     viol, sigs = [], set()
     mode = case["mode"]
     model0 = projgen.focused_model(rnd)
     model0["ctl"] = True
-    eds = projgen.focused_edits(rnd)
+    # a script-only deterministic checkout (no SCM): its re-execution is decided by the recorded directory state alone
+    k0 = lambda: {k: [] for k in projgen.KINDS}
+    model0["recipes"]["gen"] = {"env": {}, "vars": k0(), "weak": k0(), "cdet": True, "tok": {"checkout": projgen.new_tok(rnd), "build": projgen.new_tok(rnd), "package": projgen.new_tok(rnd)},
+                                "tools": k0(), "toolsWeak": k0(), "depends": []}
+    model0["recipes"]["root"]["depends"].append({"name": "gen"})
+    eds = projgen.focused_edits(rnd) + [("gen-checkout-script", lambda mm: mm["recipes"]["gen"]["tok"].__setitem__("checkout", projgen.new_tok(rnd)))]
     rnd.shuffle(eds)
     model1 = copy.deepcopy(model0)
     applied = []
